@@ -42,7 +42,8 @@ func toleranceEquality(fn *ssa.Function) bool {
 
 func checkC05(c *core.Ctx, r *core.Report) {
 	r.Explanation = "C05 (result order, limits, pagination), comparator and cut-off clauses only: " +
-		"(1) comparator exactness — every ordering function handed to sort.Slice/SliceStable/sort.Sort, IQR.Sort and IQR merging (and the sort command's less functions) is collected from the call sites, and no function reachable from it over static calls is a tolerance equality (|a-b| < eps): a comparator that calls close values equal is not a strict weak order, so adjacent output can be out of order for values closer than the tolerance; " +
+		"(1) comparator exactness — every ordering function handed to sort.Slice/SliceStable/sort.Sort, IQR.Sort and IQR merging (and the sort command's less functions) is collected from the call sites, and no function reachable from it over static calls is a tolerance equality (|a-b| < eps) or converts a dynamically typed column value between uint64 and int64 (which wraps at 2^63): such a comparator is not the numeric order, so adjacent output can be out of order; " +
+		"(6) the merger that joins the sort-index and the plain sub-searcher of a pushed-down sort is configured from a private copy of the sort expression whose row limit is the maximum (the plain stream is not in sort-key order, so the merger must not truncate); " +
 		"(2) SIBLING — sortProcessor.less and lessDirectRead decide through the same compareValues; " +
 		"(4) the sort-index search's decision to stop at the limit is control-dependent on the number of sort keys (the index orders by the first key only); " +
 		"(5) the two predicates of the time-ordered segment scheduler mean `segment overlaps the released range` and `segment lies wholly in it` for newest-first and oldest-first order (truth tables), and getQSRSToProcess admits and retires segments through them; " +
@@ -57,6 +58,15 @@ func checkC05(c *core.Ctx, r *core.Report) {
 		}
 	}
 	r.Count("tolerance_equality_functions", len(tol))
+	// ... nor a sign-changing integer conversion of a dynamically typed value (v.(uint64) -> int64 or back):
+	// a column value can use the whole range of its type, so the conversion wraps and the order is not the numeric one
+	wrap := map[*ssa.Function]bool{}
+	for _, fn := range c.RepoFunctions() {
+		if signChangingConversionOfDynamicValue(fn) {
+			wrap[fn] = true
+		}
+	}
+	r.Count("functions_with_sign_changing_conversion_of_a_dynamic_value", len(wrap))
 	// comparators
 	type cmpSite struct {
 		fn   *ssa.Function
@@ -96,6 +106,7 @@ func checkC05(c *core.Ctx, r *core.Report) {
 	}
 	r.Floor("ORDER", "comparator functions collected", len(cmps), 30)
 	seen := map[*ssa.Function]bool{}
+	seenW := map[*ssa.Function]bool{}
 	sort.Slice(cmps, func(i, j int) bool { return cmps[i].fn.String() < cmps[j].fn.String() })
 	nBad := 0
 	for _, cs := range cmps {
@@ -115,9 +126,25 @@ func checkC05(c *core.Ctx, r *core.Report) {
 			r.Violation("ORDER", name+":comparator-is-exact", c.Pos(cs.fn.Pos()), "this ordering function decides through a tolerance equality (|a-b| < eps): values closer than the tolerance compare equal although they differ, which is not transitive, so the sorted output can have adjacent rows out of order", path...)
 		}
 	}
-	if nBad == 0 {
-		r.OK("ORDER", "all-comparators-exact", "-", fmt.Sprintf("%d distinct comparator functions, none reaches a tolerance equality", len(seen)))
+	for _, cs := range cmps {
+		if cs.fn == nil || cs.fn.Blocks == nil || !core.IsRepoPkg(core.FnPkgPath(cs.fn)) || seenW[cs.fn] {
+			continue
+		}
+		seenW[cs.fn] = true
+		if path := reachesAny(cs.fn, wrap, map[*ssa.Function]bool{}, 0); path != nil {
+			nBad++
+			name := shortFn(cs.fn)
+			if cs.fn.Parent() != nil {
+				name = fmt.Sprintf("%s$closure", shortFn(cs.fn))
+			}
+			r.Violation("ORDER", name+":comparator-keeps-the-numeric-order", c.Pos(cs.fn.Pos()), "this ordering function decides through a sign-changing integer conversion of a column value (uint64 <-> int64): values at or above 2^63 wrap to negative numbers, so they sort before small values and a limited sort returns the wrong rows", path...)
+		}
 	}
+	if nBad == 0 {
+		r.OK("ORDER", "all-comparators-exact", "-", fmt.Sprintf("%d distinct comparator functions, none reaches a tolerance equality or a sign-changing conversion of a dynamically typed value", len(seen)))
+	}
+
+	c05MergeLimit(c, r)
 
 	// ---------------------------------------------------------------- (2)
 	cv := c.Obj(pkgProcessor, "compareValues")
@@ -474,4 +501,123 @@ func reachesAny(fn *ssa.Function, set map[*ssa.Function]bool, seen map[*ssa.Func
 		}
 	}
 	return nil
+}
+
+// signChangingConversionOfDynamicValue: fn converts the result of a type assertion to uint64 / int64 (a value of
+// dynamic type, e.g. CValueEnclosure.CVal) to the integer type of the same width and the other signedness.
+func signChangingConversionOfDynamicValue(fn *ssa.Function) bool {
+	if fn.Blocks == nil {
+		return false
+	}
+	fromAssert := func(v ssa.Value) bool {
+		for i := 0; i < 3; i++ {
+			switch x := v.(type) {
+			case *ssa.Extract:
+				v = x.Tuple
+				continue
+			case *ssa.TypeAssert:
+				return true
+			case *ssa.Phi:
+				for _, e := range x.Edges {
+					if ex, ok := e.(*ssa.Extract); ok {
+						if _, ok := ex.Tuple.(*ssa.TypeAssert); ok {
+							return true
+						}
+					}
+					if _, ok := e.(*ssa.TypeAssert); ok {
+						return true
+					}
+				}
+			}
+			break
+		}
+		return false
+	}
+	for _, b := range fn.Blocks {
+		for _, in := range b.Instrs {
+			cv, ok := in.(*ssa.Convert)
+			if !ok {
+				continue
+			}
+			from, ok1 := cv.X.Type().Underlying().(*types.Basic)
+			to, ok2 := cv.Type().Underlying().(*types.Basic)
+			if !ok1 || !ok2 || from.Info()&types.IsInteger == 0 || to.Info()&types.IsInteger == 0 {
+				continue
+			}
+			if (from.Info()&types.IsUnsigned != 0) == (to.Info()&types.IsUnsigned != 0) {
+				continue
+			}
+			is64 := func(b *types.Basic) bool {
+				switch b.Kind() {
+				case types.Int64, types.Uint64, types.Int, types.Uint:
+					return true
+				}
+				return false
+			}
+			if is64(from) && is64(to) && fromAssert(cv.X) {
+				return true
+			}
+		}
+	}
+	return false
+}
+
+// c05MergeLimit — (6): the sort that is pushed down into the searcher is answered by two sub-searchers (segments
+// with and without a sort index) joined by a merger that borrows the sort's less function.  The second stream is
+// not in sort-key order, so the merger must not also borrow the sort's row limit: the expression it is
+// configured from is a private copy whose Limit is set to the maximum before the sort processor is built.
+func c05MergeLimit(c *core.Ctx, r *core.Report) {
+	fn := c.Fn(pkgProcessor, "getSubsearchIfNeeded")
+	newSortDP := c.Obj(pkgProcessor, "NewSortDP")
+	setMerge := c.Obj(pkgProcessor, "DataProcessor.SetMergeSettingsBasedOnStream")
+	limitF := c.Field(pkgStructs, "SortExpr.Limit")
+	n := 0
+	for _, sm := range callsTo(fn, setMerge) {
+		args := sm.Call.Args
+		stream := args[len(args)-1]
+		if mi, ok := stream.(*ssa.MakeInterface); ok {
+			stream = mi.X
+		}
+		dpCall, ok := stream.(*ssa.Call)
+		if !ok || !core.IsCallTo(dpCall, newSortDP) {
+			continue
+		}
+		n++
+		construct := fmt.Sprintf("%s:merger#%d-does-not-borrow-the-sort-limit", shortFn(fn), n)
+		expr := dpCall.Call.Args[0]
+		fresh := false
+		if call, ok := expr.(*ssa.Call); ok {
+			if f := core.CalleeFunc(call); f != nil && f.Name() == "ShallowCopy" {
+				fresh = true
+			}
+		}
+		if _, ok := expr.(*ssa.Alloc); ok {
+			fresh = true
+		}
+		unlimited := false
+		if refs := expr.Referrers(); refs != nil {
+			for _, u := range *refs {
+				fa, ok := u.(*ssa.FieldAddr)
+				if !ok || core.FieldOfAddr(fa) != limitF || fa.Referrers() == nil {
+					continue
+				}
+				for _, w := range *fa.Referrers() {
+					if st, ok := w.(*ssa.Store); ok && st.Addr == fa {
+						if k, ok := core.ConstIntValue(st.Val); ok && k >= 1<<62 && core.InstrDominates(st, dpCall) {
+							unlimited = true
+						}
+					}
+				}
+			}
+		}
+		switch {
+		case !fresh:
+			r.Violation("ORDER", construct, c.Pos(dpCall.Pos()), "the merger of the two sub-searchers is configured from the query's own sort expression, so it stops after the sort's row limit: the stream of segments without a sort index is not in sort-key order, and rows that belong to the first N are cut before the sort sees them")
+		case !unlimited:
+			r.Violation("ORDER", construct, c.Pos(dpCall.Pos()), "the copy of the sort expression that configures the merger keeps the sort's row limit (its Limit is not set to the maximum before NewSortDP): the merger truncates a stream that is not in sort-key order")
+		default:
+			r.OK("ORDER", construct, c.Pos(dpCall.Pos()), "configured from a private copy of the sort expression whose Limit is the maximum")
+		}
+	}
+	r.Floor("ORDER", "mergers configured from a sort expression in getSubsearchIfNeeded", n, 1)
 }
